@@ -44,6 +44,7 @@ type FuncContract struct {
 	Requires []*Clause
 	Ensures  []*Clause
 	Modifies []*Clause
+	Keeps    []string
 	Loops    []*LoopContract
 	Laws     []*Clause
 	Lemmas   []*Clause
@@ -57,7 +58,7 @@ type FuncContract struct {
 	File     string
 }
 
-var kwRe = regexp.MustCompile(`^(func|requires|ensures|invariant|decreases|modifies|loop|law|lemma|unroll|inline|trusted|pure|havoc|split|cases|uninterpreted)\b`)
+var kwRe = regexp.MustCompile(`^(func|requires|ensures|invariant|decreases|modifies|keeps|loop|law|lemma|unroll|inline|trusted|pure|havoc|split|cases|uninterpreted)\b`)
 var tagRe = regexp.MustCompile(`^\[([A-Za-z0-9_, *]+)\]`)
 var labelRe = regexp.MustCompile(`^"([^"]*)"\s*:`)
 
@@ -129,6 +130,27 @@ func parseContracts(file string, src []byte) ([]*FuncContract, error) {
 		case "modifies":
 			cl.Ord = len(cur.Modifies) + 1
 			cur.Modifies = append(cur.Modifies, cl)
+		case "keeps":
+			// keeps p.f: a slice-typed place inside the modifies set that the function writes but restores;
+			// callers keep its value across the call. Justified by an automatically added postcondition.
+			for _, it := range strings.Split(cl.Text, ",") {
+				it = strings.TrimSpace(it)
+				if it == "" {
+					continue
+				}
+				cur.Keeps = append(cur.Keeps, it)
+				i := 0
+				for i < len(it) && (it[i] == '_' || it[i] >= 'a' && it[i] <= 'z' || it[i] >= 'A' && it[i] <= 'Z' || it[i] >= '0' && it[i] <= '9') {
+					i++
+				}
+				ec := *cl
+				ec.Kind = "ensures"
+				ec.Name = "keeps-" + it
+				ec.Text = "sameSlice(" + it + ", " + it[:i] + "_old" + it[i:] + ")"
+				ec.Ord = len(cur.Ensures) + 1
+				ec.Tags = nil
+				cur.Ensures = append(cur.Ensures, &ec)
+			}
 		case "law":
 			cl.Ord = len(cur.Laws) + 1
 			cur.Laws = append(cur.Laws, cl)
